@@ -19,12 +19,12 @@ def run(chk):
     plan = [
         # scen,   N, CAP, MAXSEND, RECV, units,                      framings
         ('tunnel', 3, 2, 1, 2, [1, 7, 4096, 70000], ('cl',)),
-        ('http', 4, 2, 2, 1, [32, 61, 4096, 70000], ('cl', 'chunked', 'close', 'interim', 'chunked-ext')),
+        ('http', 4, 2, 2, 1, [32, 61, 4096, 70000], ('cl', 'chunked', 'close', 'interim', 'chunked-ext', 'seq')),
     ]
     if not quick:
         plan += [('tunnel', 4, 3, 2, 2, [1, 13, 65536, 262144], ('cl',)),
                  ('tunnel', 3, 1, 1, 1, [1, 4096], ('cl',)),
-                 ('http', 5, 3, 2, 2, [40, 4096, 262144], ('cl', 'chunked', 'close', 'interim', 'chunked-ext'))]
+                 ('http', 5, 3, 2, 2, [40, 4096, 262144], ('cl', 'chunked', 'close', 'interim', 'chunked-ext', 'seq'))]
     num = 150 if quick else 700
     drift_total = 0
     for scen, N, CAP, MS, RV, units, framings in plan:
